@@ -703,8 +703,14 @@ func NewPeerGroupFromConfigStruct(pconf *PeerGroup) *api.PeerGroup {
 	afiSafis := make([]*api.AfiSafi, 0, len(pconf.AfiSafis))
 	for _, f := range pconf.AfiSafis {
 		if afiSafi := newAfiSafiFromConfigStruct(&f); afiSafi != nil {
-			afiSafi.AddPaths.Config.Receive = pconf.AddPaths.Config.Receive
-			afiSafi.AddPaths.Config.SendMax = uint32(pconf.AddPaths.Config.SendMax)
+			// the group-level add-paths setting is the default of a family
+			// that has none of its own; it must not hide a per-family one
+			if !afiSafi.AddPaths.Config.Receive {
+				afiSafi.AddPaths.Config.Receive = pconf.AddPaths.Config.Receive
+			}
+			if afiSafi.AddPaths.Config.SendMax == 0 {
+				afiSafi.AddPaths.Config.SendMax = uint32(pconf.AddPaths.Config.SendMax)
+			}
 			afiSafis = append(afiSafis, afiSafi)
 		}
 	}
